@@ -7,6 +7,7 @@ Property theorems only; helper lemmas live in `KrillModel.Ta.{Lemmas,Invariant,N
 Model: `KrillModel.Ta.{Proxy,Signer,System}`.
 -/
 import KrillModel.Ta.Numbers
+import KrillModel.Ta.Pinned
 namespace KM.Props.C15
 open KM.Ta
 
@@ -85,26 +86,39 @@ example :
 /-! ## The signer processes a request iff it is validly signed by its associated proxy -/
 
 /-- `process_signer_request` goes through **iff** the message is validly signed by the proxy the
-signer was initialised for and every child request in it can be honoured; otherwise the signer
-is unchanged (`Signer.exec`).  For every signer state, message and number override. -/
+signer was initialised for, a forced manifest number (if any) exceeds the current one, and every
+child request in it can be honoured; otherwise the signer is unchanged (`Signer.exec`).  For every
+signer state, message and number override. -/
 theorem request_processed_iff_signed_by_proxy (s : Signer) (m : Signed ReqBody) (ovr : Option Nat) :
     (∃ r, processSignerRequest s m ovr = .ok r) ↔
       (m.signer = s.proxyKey ∧ m.fresh = true ∧ m.body = m.clear) ∧
+      (∀ v, ovr = some v → s.objects.number < v) ∧
       ∃ a, signAll m.clear.resources { objects := s.objects, serial := s.nextSerial }
               m.clear.entries = .ok a := by
   constructor
   · rintro ⟨⟨s', r⟩, h⟩
-    obtain ⟨hv, _⟩ := processSignerRequest_ok s s' m ovr r h
-    refine ⟨(validFor_iff m s.proxyKey).mp hv, ?_⟩
-    unfold processSignerRequest at h
-    simp only [hv, Bool.not_true, Bool.false_eq_true, if_false] at h
-    cases ha : signAll m.clear.resources { objects := s.objects, serial := s.nextSerial } m.clear.entries with
-    | error x => simp [ha] at h
-    | ok a => exact ⟨a, rfl⟩
-  · rintro ⟨hv, a, ha⟩
+    obtain ⟨hv, _, _, _, _, _, _, _, _, _, hnum, hgt⟩ := processSignerRequest_ok s s' m ovr r h
+    refine ⟨(validFor_iff m s.proxyKey).mp hv, ?_, ?_⟩
+    · intro v hov
+      rw [hnum, hov] at hgt
+      simpa using hgt
+    · unfold processSignerRequest at h
+      simp only [hv, Bool.not_true, Bool.false_eq_true, if_false] at h
+      cases ho : ovr.all fun v => decide (s.objects.number < v) with
+      | false => simp [ho] at h
+      | true =>
+        simp only [ho, Bool.not_true, Bool.false_eq_true, if_false] at h
+        cases ha : signAll m.clear.resources { objects := s.objects, serial := s.nextSerial } m.clear.entries with
+        | error x => simp [ha] at h
+        | ok a => exact ⟨a, rfl⟩
+  · rintro ⟨hv, hov, a, ha⟩
     have hv' := (validFor_iff m s.proxyKey).mpr hv
+    have ho : (ovr.all fun v => decide (s.objects.number < v)) = true := by
+      cases ovr with
+      | none => rfl
+      | some v => simpa using hov v rfl
     unfold processSignerRequest
-    simp [hv', ha]
+    simp [hv', ho, ha]
 
 /-- Not signed by the associated proxy (another proxy's key, expired, clear text altered):
 refused whatever the content, signer unchanged. -/
@@ -177,10 +191,12 @@ theorem exec_openN (p : Proxy) (c : Cmd) :
     | updateSigner i =>
       simp only [process] at hp
       split at hp
-      · split at hp
-        · cases hp; rfl
-        · cases hp
       · cases hp
+      · split at hp
+        · split at hp
+          · cases hp; rfl
+          · cases hp
+        · cases hp
     | addChild c res =>
       simp only [process] at hp
       split at hp
@@ -348,7 +364,7 @@ example :
 theorem signer_number_next (s s' : Signer) (m : Signed ReqBody) (r : Signed RespBody)
     (h : processSignerRequest s m none = .ok (s', r)) :
     s'.objects.number = s.objects.number + 1 ∧ r.body.objects.number = s.objects.number + 1 := by
-  obtain ⟨_, _, _, _, _, _, _, _, _, a, b⟩ := processSignerRequest_ok s s' m none r h
+  obtain ⟨_, _, _, _, _, _, _, _, _, a, b, _⟩ := processSignerRequest_ok s s' m none r h
   rw [a]; exact ⟨b, b⟩
 
 theorem inv_runWith (ok : Sys → Op → Bool) (s s' : Sys) (ops : List Op) (hi : Inv s)
@@ -384,13 +400,16 @@ theorem numInv_runWith (s s' : Sys) (ops : List Op) (hi : Inv s) (hn : NumInv s)
         simp [numLe] <;> omega
     · cases hr
 
-/- Full statement (false of the code, see the three counter-examples below):
+/- Full statement (false of the code, see `ta_numbers_decrease_by_reinit` below, open finding
+   F-C15-2):
      for every admissible run, the number the proxy publishes never decreases.
-   What is proved: the same for all runs in which the operator does not force a manifest number
-   at or below the signer's current one and re-associates the proxy with a signer only while no
-   signer request is open and never with a signer whose number is behind (`benign`).  All
-   replays, re-orderings, cross-wirings, forgeries, concurrent children, additional and
-   re-initialised signers remain included. -/
+   What is proved: the same for all runs in which the proxy is not re-associated (`UpdateSigner`)
+   with a signer whose manifest number is behind the one the proxy publishes – a signer initialised
+   again with the same TA key and a too low initial number; refusing that in the code would stand
+   in the way of disaster recovery, so it is left to the maintainers – and in which the first
+   association happens while no request is open (`benign`).  Forced manifest numbers, signer
+   updates at any time, all replays, re-orderings, cross-wirings, forgeries, concurrent children,
+   additional and re-initialised signers are inside the statement. -/
 /-- Over every such history the number of the TA's manifest and CRL, as published by the proxy,
 never decreases between any two instants … -/
 theorem ta_numbers_increase_partial (k : Key) (ops1 ops2 : List Op) (s1 s2 : Sys)
@@ -410,34 +429,57 @@ theorem ta_numbers_increase_on_accept (k : Key) (ops : List Op) (s : Sys) (m : S
   have hn := (numInv_runWith _ _ ops (inv_init k) (numInv_init k) h).1
   exact number_accept s m evs hi hn ha hp
 
-/-- Counter-example 1 (operator override): `krillta signer process --ta-mft-number-override N`
-with `N` below the current number is taken as is (`ObjectSetRevision::next`), the proxy accepts
-the response, the published number goes from 5 to 3. -/
-theorem ta_numbers_decrease_by_override :
-    ∃ ops s1 s2 o, run (Sys.init 1) ops = some s1 ∧ admissible s1 o = true ∧ step s1 o = s2 ∧
-      s1.proxy.number = some 5 ∧ s2.proxy.number = some 3 := by
-  let b : ReqBody := { nonce := 7 }
-  let rb : RespBody := { nonce := 7, objects := { number := 3 } }
-  refine ⟨[.signerInit 2 1 3 (some 5), .addSigner 2, .makeRequest 7, .getRequest,
-      .sign 2 { signer := 1, body := b, clear := b } (some 3)], _, _,
-      .respond { signer := 2, body := rb, clear := rb }, rfl, by decide, rfl, by decide, by decide⟩
+/-- The signer's own number rises with every processed request, forced number or not. -/
+theorem signer_number_increases (s s' : Signer) (m : Signed ReqBody) (ovr : Option Nat)
+    (r : Signed RespBody) (h : processSignerRequest s m ovr = .ok (s', r)) :
+    s.objects.number < s'.objects.number := by
+  obtain ⟨_, _, _, _, _, _, _, _, _, a, _, b⟩ := processSignerRequest_ok s s' m ovr r h
+  rw [a]; exact b
 
-/-- Counter-example 2 (signer re-initialisation): a signer initialised again with the same TA key
-starts at number 1 unless told otherwise, `UpdateSigner` checks the TA key only and takes over
-the new signer's objects: 5 → 1. -/
+/-- `UpdateSigner` is refused while a signer request is open, nothing changes. -/
+theorem update_signer_refused_while_open (p : Proxy) (i : SignerInfo) (n : Nonce)
+    (h : p.openNonce = some n) : exec p (.updateSigner i) = (p, .error .hasRequest) := by
+  simp [exec, process, h]
+
+/-- Counter-example (open finding F-C15-2, signer re-initialisation): a signer initialised again
+with the same TA key starts at number 1 unless told otherwise, `UpdateSigner` checks the TA key
+only and takes over the new signer's objects: 5 → 1. -/
 theorem ta_numbers_decrease_by_reinit :
     ∃ ops s1 s2 o, run (Sys.init 1) ops = some s1 ∧ admissible s1 o = true ∧ step s1 o = s2 ∧
       s1.proxy.number = some 5 ∧ s2.proxy.number = some 1 := by
   refine ⟨[.signerInit 2 1 3 (some 5), .addSigner 2, .signerInit 4 1 3 none], _, _,
       .updateSigner 4, rfl, by decide, rfl, by decide, by decide⟩
 
-/-- Counter-example 3 (stale response after a signer update): the signer answers the same request
-twice (numbers 6 and 7), the proxy is updated with the signer's current info (7) while the
-request is still open, then the older response (6) arrives – right nonce, right signer – and is
-accepted: 7 → 6. -/
-theorem ta_numbers_decrease_by_stale_response_after_update :
-    ∃ ops s1 s2 o, run (Sys.init 1) ops = some s1 ∧ admissible s1 o = true ∧ step s1 o = s2 ∧
-      s1.proxy.number = some 7 ∧ s2.proxy.number = some 6 := by
+/-! ### The pinned tree (e4e0506a), for the record: fixed findings F-C15-1 and F-C15-3 -/
+
+/-- Pinned tree, F-C15-1 (fixed by 109701d8): `krillta signer process --ta-mft-number-override N`
+with `N` below the current number was taken as is, the proxy accepted the response, the published
+number went from 5 to 3. -/
+theorem pinned_numbers_decrease_by_override :
+    ∃ ops s1 s2 o, Pinned.run (Sys.init 1) ops = some s1 ∧ admissible s1 o = true ∧
+      Pinned.step s1 o = s2 ∧ s1.proxy.number = some 5 ∧ s2.proxy.number = some 3 := by
+  let b : ReqBody := { nonce := 7 }
+  let rb : RespBody := { nonce := 7, objects := { number := 3 } }
+  refine ⟨[.signerInit 2 1 3 (some 5), .addSigner 2, .makeRequest 7, .getRequest,
+      .sign 2 { signer := 1, body := b, clear := b } (some 3)], _, _,
+      .respond { signer := 2, body := rb, clear := rb }, rfl, by decide, rfl, by decide, by decide⟩
+
+/-- The same history on the current code: the signer refuses, the response does not exist (it is
+not admissible), the number stays. -/
+example :
+    let b : ReqBody := { nonce := 7 }
+    let rb : RespBody := { nonce := 7, objects := { number := 3 } }
+    (run (Sys.init 1) [.signerInit 2 1 3 (some 5), .addSigner 2, .makeRequest 7, .getRequest,
+        .sign 2 { signer := 1, body := b, clear := b } (some 3)]).map
+      (fun s => (s.proxy.number, s.resps.length, admissible s (.respond { signer := 2, body := rb, clear := rb })))
+      = some (some 5, 0, false) := by decide
+
+/-- Pinned tree, F-C15-3 (fixed by 764cd480): the signer answers the same request twice (numbers
+6 and 7), the proxy is updated with the signer's current info (7) while the request is still open,
+then the older response (6) – right nonce, right signer – is accepted: 7 → 6. -/
+theorem pinned_numbers_decrease_by_stale_response_after_update :
+    ∃ ops s1 s2 o, Pinned.run (Sys.init 1) ops = some s1 ∧ admissible s1 o = true ∧
+      Pinned.step s1 o = s2 ∧ s1.proxy.number = some 7 ∧ s2.proxy.number = some 6 := by
   let b : ReqBody := { nonce := 7 }
   let sg : Signed ReqBody := { signer := 1, body := b, clear := b }
   let rb : RespBody := { nonce := 7, objects := { number := 6 } }
@@ -445,8 +487,21 @@ theorem ta_numbers_decrease_by_stale_response_after_update :
       .sign 2 sg none, .sign 2 sg none, .updateSigner 2], _, _,
       .respond { signer := 2, body := rb, clear := rb }, rfl, by decide, rfl, by decide, by decide⟩
 
-/-- Non-vacuity of the partial theorem: a benign run with two exchanges, a replay at the signer
-and a re-initialised signer taken into use with an adequate initial number: 5, 6, 8, 20, 21. -/
+/-- The same history on the current code: the update is refused, the older response raises the
+number from 5 to 6, the newer one is then refused (no open request). -/
+example :
+    let b : ReqBody := { nonce := 7 }
+    let sg : Signed ReqBody := { signer := 1, body := b, clear := b }
+    let rs (num : Nat) : Signed RespBody :=
+      { signer := 2, body := { nonce := 7, objects := { number := num } },
+        clear := { nonce := 7, objects := { number := num } } }
+    (run (Sys.init 1) [.signerInit 2 1 3 (some 5), .addSigner 2, .makeRequest 7, .getRequest,
+        .sign 2 sg none, .sign 2 sg none, .updateSigner 2, .respond (rs 6), .respond (rs 7)]).map
+      (·.proxy.number) = some (some 6) := by decide
+
+/-- Non-vacuity of the partial theorem: a benign run with two exchanges, a forced number, a replay
+at the signer, a signer update between exchanges and a re-initialised signer taken into use with
+an adequate initial number: 5, 6, 10, 20, 21. -/
 example :
     let b (n : Nat) : ReqBody := { nonce := n }
     let sg (n : Nat) : Signed ReqBody := { signer := 1, body := b n, clear := b n }
@@ -456,8 +511,9 @@ example :
     (runWith benign (Sys.init 1) [
         .signerInit 2 1 3 (some 5), .addSigner 2,
         .makeRequest 7, .getRequest, .sign 2 (sg 7) none, .respond (rs 2 7 6),
-        .makeRequest 8, .getRequest, .sign 2 (sg 8) none, .sign 2 (sg 8) none,
-        .respond (rs 2 8 8), .respond (rs 2 8 7),
+        .updateSigner 2,
+        .makeRequest 8, .getRequest, .sign 2 (sg 8) (some 10), .sign 2 (sg 8) (some 3),
+        .sign 2 (sg 8) none, .respond (rs 2 8 10), .respond (rs 2 8 11),
         .signerInit 4 1 3 (some 20), .updateSigner 4,
         .makeRequest 9, .getRequest, .sign 4 (sg 9) none, .respond (rs 4 9 21)]).map
       (·.proxy.number) = some (some 21) := by decide
